@@ -93,3 +93,51 @@ Section Point.
     apply (vbest_project m HO Hg Hclean); try assumption. lia.
   Qed.
 End Point.
+
+(* ---- any solver step built from point-based backups and sub-list selections yields plans:
+   PBVI (one backup per belief and action, then extractDominated / extractBestAtPoint),
+   Witness (one backup per witness point found by the LP, then Pruner), PERSEUS and
+   LinearSupport (best-action backup at chosen beliefs / vertices). *)
+Section PointStep.
+  Variable m : pomdp.
+  Hypothesis HO : (0 < nO m)%nat.
+  Hypothesis Hclean : obs_clean m.
+  Variable select : vlist -> vlist.
+  Hypothesis select_sub : forall l e, In e (select l) -> In e l.
+
+  (* all candidate entries for a list of (belief, action) requests *)
+  Definition point_candidates (w : vlist) (reqs : list (vec * nat)) : vlist :=
+    map (fun ba => fst (csbb_row (fst ba) (proj_row m w (snd ba)) (snd ba) (nS (pm m)))) reqs.
+
+  Theorem point_step_entries_are_plans_lemma : forall w reqs, w <> [] ->
+    Forall (fun ba => (snd ba < nA (pm m))%nat) reqs ->
+    Forall (entry_is_plan m w) (select (point_candidates w reqs)).
+  Proof.
+    intros w reqs Hne Hr. apply Forall_forall. intros e He. apply select_sub in He.
+    unfold point_candidates in He. apply in_map_iff in He. destruct He as [[b a] [<- Hin]].
+    rewrite Forall_forall in Hr. specialize (Hr (b, a) Hin). cbn [fst snd] in *.
+    apply point_backup_is_plan_lemma; assumption.
+  Qed.
+
+  (* the best-action backup (crossSumBestAtBelief over all actions) is one of the candidates *)
+  Lemma csbb_all_go_in : forall w b acts best,
+    (exists a, best = csbb_row b (proj_row m w a) a (nS (pm m)) /\ (a < nA (pm m))%nat) ->
+    Forall (fun a => (a < nA (pm m))%nat) acts ->
+    exists a, csbb_all_go m w b best acts = csbb_row b (proj_row m w a) a (nS (pm m)) /\ (a < nA (pm m))%nat.
+  Proof.
+    intros w b acts; induction acts as [|a acts IH]; intros best Hb Ha; cbn [csbb_all_go]; [exact Hb|].
+    inversion Ha as [|? ? Ha0 Ha']; subst.
+    destruct (Qlt_le_dec (snd best) (snd (csbb_row b (proj_row m w a) a (nS (pm m))))); apply IH; try assumption.
+    exists a; split; [reflexivity| exact Ha0].
+  Qed.
+
+  Theorem best_action_backup_is_plan_lemma : forall w b, w <> [] -> (0 < nA (pm m))%nat ->
+    entry_is_plan m w (fst (csbb_all m w b)).
+  Proof.
+    intros w b Hne HA. unfold csbb_all.
+    destruct (csbb_all_go_in w b (seq 1 (nA (pm m) - 1)) (csbb_row b (proj_row m w 0) 0%nat (nS (pm m)))) as [a [E Ha]].
+    - exists 0%nat; split; [reflexivity| exact HA].
+    - apply Forall_forall. intros a Ha. apply in_seq in Ha. lia.
+    - rewrite E. apply point_backup_is_plan_lemma; assumption.
+  Qed.
+End PointStep.
